@@ -119,3 +119,34 @@ func H_C19_order() {
 	assert(blockedThreads() == 0, "no goroutine left")
 	cover("order")
 }
+
+// H_C19_rounds: R consecutive rounds on one checker, each with an arbitrary
+// success/failure pattern: the process is terminated in a round exactly when
+// that round's five pings all fail; failures of earlier rounds do not count.
+func H_C19_rounds() {
+	R := 2
+	if tierThorough() {
+		R = 3
+	}
+	cl := &vPingClient{}
+	hc := NewHealthCheck(&config.HealthCheck{Interval: time.Minute, Timeout: time.Second}, cl).(*healthCheck)
+	for r := 0; r < R; r++ {
+		var pattern [5]bool
+		allFail := true
+		for i := 0; i < 5; i++ {
+			pattern[i] = nondetBool("fail")
+			if !pattern[i] {
+				allFail = false
+			}
+		}
+		base := cl.pings
+		cl.fail = func(n int) bool { return n-base < 5 && pattern[n-base] }
+		p, _ := expectPanic(func() { hc.performHealthCheck(context.Background()) })
+		assert(p == allFail, "a round terminates the process exactly when its own five pings all fail")
+		if p {
+			cover("fail-stop-in-later-round")
+			return
+		}
+	}
+	cover("rounds-survived")
+}
